@@ -11,9 +11,10 @@
    and "no goroutine left" fail as soon as a panic is raised after the caller has left (or may leave) its select,
    or when finish() races with the reducer's send; ctx-done => DeadlineExceeded fails when the select also sees
    the closed output.  Stuck-freedom / leak-freedom is therefore proved for the clean family (`_partial`) and
-   tested by exhaustive exploration for small configurations with cancels / context / single panics (Tests.v). *)
+   tested by exhaustive exploration for small configurations with cancels / context / single panics
+   (ExploreTests.v, outside the cone of this file). *)
 From Coq Require Import Permutation.
-From God Require Import Base.Prelude C07.Model C07.ProofsA C07.ProofsB C07.ProofsC C07.ProofsD C07.Proofs C07.Explore C07.Tests.
+From God Require Import Base.Prelude C07.Model C07.ProofsA C07.ProofsB C07.ProofsC C07.ProofsD C07.ProofsE C07.Proofs C07.Spec C07.Tests.
 
 (* ---- conservation: nothing is duplicated or invented, for every schedule ---- *)
 Theorem c07_conservation : forall cf s, reachable cf s ->
@@ -45,7 +46,7 @@ Proof. exact no_send_on_closed_collector. Qed.
 Print Assumptions c07_collector_open_for_writers.
 
 (* ---- no more than the configured number of mappers run at the same time ---- *)
-Theorem c07_worker_bound : forall cf s, reachable cf s -> running s <= workers cf.
+Theorem c07_worker_bound : forall cf s, reachable cf s -> worker_spec cf (running s).
 Proof. exact worker_bound. Qed.
 Print Assumptions c07_worker_bound.
 
@@ -72,13 +73,13 @@ Proof. exact result_sound. Qed.
 Print Assumptions c07_result.
 
 (* nil becomes ErrCancelWithNil, by definition of the error a cancel call carries (mapreduce.go:201-205) *)
-Theorem c07_cancel_nil : err_of None = ECancelNil /\ forall n, err_of (Some n) = EUser n.
-Proof. split; reflexivity. Qed.
+Theorem c07_cancel_nil : forall e, err_of e = spec_cancel_error e.
+Proof. reflexivity. Qed.
 
 (* ---- result table, completeness in the clean case: the single value / ErrReduceNoOutput / caller panics ---- *)
 Theorem c07_result_clean : forall cf s o, reachable cf s -> clean s -> no_rpanic (rafter cf) -> c s = CDone o ->
-  o = match writes (rafter cf) with [] => ONoOutput | [k] => ORet k | _ :: _ :: _ => OPanicTwice end.
-Proof. exact clean_result. Qed.
+  o = spec_result (rafter cf).
+Proof. intros cf s o R C NP H. unfold spec_result. rewrite rwrites_writes. exact (clean_result cf s o R C NP H). Qed.
 Print Assumptions c07_result_clean.
 
 Theorem c07_double_write_panics_caller : forall cf s o k1 k2 rest, reachable cf s -> clean s ->
@@ -92,9 +93,9 @@ Print Assumptions c07_double_write_panics_caller.
    (With a writing reducer a value handed over before the cancel may be returned instead: see c07_result.) ---- *)
 Theorem c07_cancel_result : forall cf s o, reachable cf s -> ctxd s = false -> wrote s = false ->
   writes (rafter cf) = [] -> c s = CDone o ->
-  o = match rev (ccalls s) with e :: _ => OErr e | [] => ONoOutput end.
+  o = spec_cancel_result (rev (ccalls s)).
 Proof.
-  intros cf s o R Hc Hw Hn Hd.
+  intros cf s o R Hc Hw Hn Hd. unfold spec_cancel_result.
   destruct (rev (ccalls s)) as [|e rest] eqn:E.
   - apply (no_cancel_no_output cf s o R Hc Hw Hn Hd). destruct (ccalls s) as [|a l]; [reflexivity|].
     simpl in E. destruct (rev l); discriminate.
@@ -128,7 +129,7 @@ Print Assumptions c07_schedules_bounded.
    mappers writing any number of values, reducer receiving all or j values and writing <= 2 times, context never
    done).  MISSING for the full statement: configurations with cancel, ctx or panics - for panics and for reducer
    writes racing with finish() the statement is false (witnesses below); for cancel / ctx without reducer writes it
-   is only tested exhaustively on small configurations (Tests.test_cancel_waitret, test_double_cancel,
+   is only tested exhaustively on small configurations (ExploreTests.test_cancel_waitret, test_double_cancel,
    test_ctx_any_time, test_ctx_pre_cancel, test_panics_reraised, ...). ---- *)
 Theorem c07_no_stuck_partial : forall cf ls s, clean_cfg cf -> env_free ls ->
   run cf (init cf) ls = Some s -> final s = false -> exists l, l <> LEnv /\ exists s', step cf s l = Some s'.
@@ -146,6 +147,14 @@ Theorem c07_no_leak_partial : forall cf ls s, clean_cfg cf -> env_free ls -> run
     running s' = 0.
 Proof. exact no_leak_partial. Qed.
 Print Assumptions c07_no_leak_partial.
+
+(* ---- the whole clean clause in terms of Spec.v: every clean run can be completed (c07_no_leak_partial), and every
+   complete clean run has mapped every item exactly once, delivered exactly the written values to a range
+   reducer, returned the table's outcome, and left no goroutine behind ---- *)
+Theorem c07_clean_spec : forall cf ls s, clean_cfg cf -> env_free ls -> run cf (init cf) ls = Some s ->
+  final s = true -> all_exited s /\ exists o, c s = CDone o /\ clean_spec cf (map fst (ws s)) (recvd s) o.
+Proof. exact clean_family_spec. Qed.
+Print Assumptions c07_clean_spec.
 
 (* ---- clauses that are false of the code as modelled: computed witnesses ---- *)
 (* "once the generator function has returned no goroutine started by the call is left running": a mapper panic
@@ -212,15 +221,4 @@ Proof.
   destruct (run cf_ex (init cf_ex) sched_ex) as [s|] eqn:E; [|vm_compute in E; discriminate].
   exists s. split; [reflexivity|]. vm_compute in E. inversion E; subst; clear E.
   unfold clean. repeat split; reflexivity.
-Qed.
-
-(* the exhaustive small-bound tests (Tests.v) hold *)
-Example c07_no_stuck_test_small :
-  explore_ok cf_t3 false is_err fuel = true /\ explore_ok cf_t4 false (fun s => match c s with CDone (OErr (EUser 5)) => true | _ => false end) fuel = true /\
-  explore_ok cf_t5 true (fun _ => true) fuel = true /\ explore_ok cf_t6 false (fun _ => true) fuel = true /\
-  explore_ok cf_t7 false is_panic fuel = true /\ explore_ok cf_t7g false is_panic fuel = true /\
-  explore_ok cf_t8 false is_panic fuel = true.
-Proof.
-  exact (conj test_cancel_waitret (conj test_double_cancel (conj test_ctx_any_time (conj test_ctx_pre_cancel
-        (conj test_panics_reraised (conj test_generator_panic_reraised test_reducer_panic)))))).
 Qed.
